@@ -5,9 +5,13 @@ import (
 	"strings"
 	"syscall"
 
+	"free5gclib/nas/nasMessage"
+	"free5gclib/nas/nasTestpacket"
+	"free5gclib/nas/security"
 	"free5gclib/ngap"
 	"free5gclib/ngap/ngapType"
 	"stgutg"
+	"tglib"
 	"tglib/ngapTestpacket"
 
 	"github.com/ishidawataru/sctp"
@@ -17,6 +21,9 @@ import (
 // builders make of it, and nasConvert.PlmnIDToNas (op plmn2nas, registered in conv.go).
 //
 //	suci <imsi:text-hex> <mncLen>          → ok <Buffer hex> <Len>
+//	nassuci <imsi:text-hex> <mncLen>       → ok <identity in REGISTRATION REQUEST> <identity in DEREGISTRATION REQUEST>: the contents of
+//	                                          the 5GS mobile identity IE (LV-E at octet 5) cut out of the octets that the real
+//	                                          nasTestpacket.GetRegistrationRequest / GetDeregistrationRequest produce, as RegisterUE / DeregisterUE call them
 //	ngplmn <imsi:text-hex> <mncLen>        → ok <GlobalGNBID plmn> <BroadcastPLMN plmn> <ULI NR-CGI plmn> <ULI TAI plmn>
 //	                                          (the expression of ngsetup.go line 23, then the real builders)
 //	ngsetup <imsi:text-hex> <mnc:text-hex> → the same two NG Setup fields, taken from the octets the real
@@ -32,6 +39,24 @@ func init() {
 	registerOp("suci", func(a []string) string {
 		m := stgutg.EncodeSuci(aHex(a[0]), int(aI64(a[1])))
 		return "ok " + hx(m.Buffer) + " " + u(uint64(m.Len))
+	})
+	registerOp("nassuci", func(a []string) string {
+		id := stgutg.EncodeSuci(aHex(a[0]), int(aI64(a[1])))
+		ue := tglib.NewRanUeContext("imsi-"+string(aHex(a[0])), 1, security.AlgCiphering128NEA0, security.AlgIntegrity128NIA2)
+		reg := nasTestpacket.GetRegistrationRequest(nasMessage.RegistrationType5GSInitialRegistration, *id, nil,
+			ue.GetUESecurityCapability(), nil, nil, nil)
+		dereg := nasTestpacket.GetDeregistrationRequest(nasMessage.AccessType3GPP, 0, 0x04, *id)
+		cut := func(m []byte) string {
+			if len(m) < 6 {
+				return "short"
+			}
+			l := int(m[4])<<8 | int(m[5])
+			if 6+l > len(m) {
+				return "short"
+			}
+			return hx(m[6 : 6+l])
+		}
+		return "ok " + cut(reg) + " " + cut(dereg)
 	})
 	registerOp("ngplmn", func(a []string) string {
 		imsi := string(aHex(a[0]))
@@ -123,6 +148,9 @@ func tx(s string) string { return hx([]byte(s)) }
 func suciCase(e *emitter, mcc, mnc string, msinLen int) {
 	imsi := mcc + mnc + digits(e, msinLen)
 	e.op("suci", tx(imsi), i(int64(len(mnc))))
+	if e.thorough() || e.rng.Intn(4) == 0 {
+		e.op("nassuci", tx(imsi), i(int64(len(mnc))))
+	}
 	e.op("ngplmn", tx(imsi), i(int64(len(mnc))))
 	e.op("plmn2nas", tx(mcc), tx(mnc))
 }
